@@ -71,6 +71,11 @@ def to_expr(e, env, arrays=None):
         op = e["opcode"]
         a, b = to_expr(e["inner"][0], env, arrays), to_expr(e["inner"][1], env, arrays)
         m = {"+": 'add', "-": 'sub', "*": 'mul', "/": 'div', "&&": 'and', "||": 'or', "|": 'or', "&": 'and'}
+        INF = ('call', 'inf', ())
+        if op == "/" and b == num(0):
+            return ('nan',) if a == num(0) else INF          # 0./0. and 1./0. as the kernels spell NaN and infinity
+        if op == "*" and ((a == INF and b == num(0)) or (b == INF and a == num(0))):
+            return ('nan',)
         if op in m:
             return (m[op], a, b)
         if op in ("<", "<=", ">", ">=", "==", "!="):
